@@ -109,10 +109,25 @@ func c10(p *core.Program, r *core.Report) {
 		// cut-off by evaluation: with the filter's answer bound to -1, 0, 1 OrientationIndex returns it without touching
 		// math/big; bound to 2 (or any larger value) it reaches the exact arithmetic
 		bad := ""
+		// the filter's protocol: one result with "greater than 1" meaning undecided, or (index, decided bool)
+		pairProtocol := false
+		if ff := p.SSAFunc("bigxy", "orientationIndexFilter"); ff != nil {
+			if res := ff.Signature.Results(); res.Len() == 2 {
+				if bt, isB := res.At(1).Type().Underlying().(*types.Basic); isB && bt.Kind() == types.Bool {
+					pairProtocol = true
+				}
+			}
+		}
 		for _, k := range []int64{-1, 0, 1, 2, 7} {
 			ev := &eng.ConstEval{Inline: func(f *ssa.Function) bool { return f.Pkg == fn.Pkg && f.Name() != "orientationIndexFilter" }}
 			ev.Override = func(f *ssa.Function, v ssa.Value, args []eng.CVal) (eng.CVal, bool) {
 				if c, ok := v.(*ssa.Call); ok && c.Call.StaticCallee() != nil && c.Call.StaticCallee().Name() == "orientationIndexFilter" {
+					if pairProtocol {
+						if k <= 1 {
+							return eng.TupleV(eng.IntV(k), eng.ConstV(constant.MakeBool(true))), true
+						}
+						return eng.TupleV(eng.Top, eng.ConstV(constant.MakeBool(false))), true
+					}
 					return eng.IntV(k), true
 				}
 				return eng.CVal{}, false
@@ -417,6 +432,102 @@ func filterStructure(p *core.Program, r *core.Report, rule string, fn *ssa.Funct
 		}
 		return fmt.Sprintf("%d sign tests and %d error-bound tests found; the filter needs both signs of both products and det, -det >= errbound", nsign, nbound)
 	}())
+	// a decided answer is returned only where a decision was made: with the edges on which the theorem allows an
+	// answer deleted (the products disagree in sign; detleft is zero; det or -det reached the error bound), no return
+	// of a decided value is reachable. Undecided: a constant above 1, or false in the second result.
+	{
+		holdsZeroCmp := func(c eng.Cmp, v ssa.Value, ops ...token.Token) bool {
+			x, y, op := c.X, c.Y, c.Op
+			if isZero(x) {
+				x, y = y, x
+				op = eng.SwapOp(op)
+			}
+			if x != v || !isZero(y) {
+				return false
+			}
+			for _, o := range ops {
+				if op == o {
+					return true
+				}
+			}
+			return false
+		}
+		justified := eng.EdgeSet{}
+		for _, b := range fn.Blocks {
+			if eng.BlockIf(b) == nil {
+				continue
+			}
+			must := mustEdgesTo(fn, b)
+			holdsBefore := func(v ssa.Value, ops ...token.Token) bool {
+				for _, e := range must {
+					if c, ok := eng.EdgeCmp(fn.Blocks[e[0]], e[1]); ok && holdsZeroCmp(c, v, ops...) {
+						return true
+					}
+				}
+				return false
+			}
+			// the error-bound test moved into a predicate of the package: exceeds(det, errbound)
+			if call, isCall := eng.BlockIf(b).Cond.(*ssa.Call); isCall && errbound != nil {
+				if g := call.Call.StaticCallee(); g != nil && g.Pkg == fn.Pkg {
+					hasDet, hasBound := false, false
+					for _, a := range call.Call.Args {
+						if a == det || isNeg(a, det) {
+							hasDet = true
+						}
+						if a == errbound {
+							hasBound = true
+						}
+					}
+					if hasDet && hasBound {
+						justified[[2]int{b.Index, 0}] = true
+					}
+				}
+			}
+			for e := 0; e < 2; e++ {
+				c, ok := eng.EdgeCmp(b, e)
+				if !ok {
+					continue
+				}
+				switch {
+				case holdsZeroCmp(c, detright, token.LEQ, token.LSS) && holdsBefore(detleft, token.GTR):
+					justified[[2]int{b.Index, e}] = true
+				case holdsZeroCmp(c, detright, token.GEQ, token.GTR) && holdsBefore(detleft, token.LSS):
+					justified[[2]int{b.Index, e}] = true
+				case holdsZeroCmp(c, detleft, token.EQL):
+					justified[[2]int{b.Index, e}] = true
+				case holdsZeroCmp(c, detleft, token.GEQ) && holdsBefore(detleft, token.LEQ), holdsZeroCmp(c, detleft, token.LEQ) && holdsBefore(detleft, token.GEQ):
+					justified[[2]int{b.Index, e}] = true
+				case errbound != nil && c.Y == errbound && (c.Op == token.GEQ || c.Op == token.GTR) && (c.X == det || isNeg(c.X, det)):
+					justified[[2]int{b.Index, e}] = true
+				}
+			}
+		}
+		reach := eng.Reachable(fn.Blocks[0], justified)
+		ndec := 0
+		badRet := ""
+		for _, b := range fn.Blocks {
+			ret, isRet := b.Instrs[len(b.Instrs)-1].(*ssa.Return)
+			if !isRet || len(ret.Results) == 0 {
+				continue
+			}
+			undecided := false
+			if len(ret.Results) == 2 {
+				if k, isK := ret.Results[1].(*ssa.Const); isK && k.Value != nil && k.Value.Kind() == constant.Bool && !constant.BoolVal(k.Value) {
+					undecided = true
+				}
+			} else if k, isK := eng.ConstInt(ret.Results[0]); isK && k > 1 {
+				undecided = true
+			}
+			if undecided {
+				continue
+			}
+			ndec++
+			if reach[b] && badRet == "" {
+				badRet = "the return at " + p.Pos(ret.Pos()) + " hands back a decided orientation on a path on which neither the products disagree in sign, nor detleft is zero, nor |det| reached the error bound: an answer the filter cannot vouch for"
+			}
+		}
+		r.Check(badRet == "" && ndec > 0, rule, short(fn)+"/decided-only-when-justified", p.Pos(fn.Pos()), true, fmt.Sprintf("%d decided returns, none reachable without a deciding edge", ndec), badRet)
+	}
 	// detsum feeding errbound
 	okSum := false
 	if errbound != nil {
